@@ -123,7 +123,7 @@ func ParseUIntVal(buf []byte, offs int, pcl *PUIntBody) (int, ErrorHdr) {
 				pcl.UIVal = uint32(c - '0')
 			case clFound:
 				v := pcl.UIVal*10 + uint32(c-'0')
-				if pcl.UIVal > v {
+				if pcl.UIVal > (^uint32(0)-uint32(c-'0'))/10 {
 					// overflow
 					return i, ErrHdrNumTooBig
 				}
